@@ -20,17 +20,18 @@ Definition port_of (dest : bytes) : bytes :=
   | None => []
   end.
 
-(* environment: ports in [dead] refuse the connection; the listeners fail the first k
-   handshakes they see (k is threaded through) *)
-Fixpoint try_targets (dead : list bytes) (l : list target) (k : N)
+(* environment: a [blocked] target gets no connection (its port refuses, or the dialer's control
+   function refuses the address); the listeners fail the first k handshakes they see (k is
+   threaded through) *)
+Fixpoint try_targets (blocked : target -> bool) (l : list target) (k : N)
   : list (target * attempt_outcome) * N * bool :=
   match l with
   | [] => ([], k, false)
   | t :: r =>
-      if mem_bytes (port_of (t_dest t)) dead then
-        let '(rest, k', ok) := try_targets dead r k in ((t, ARefused) :: rest, k', ok)
+      if blocked t then
+        let '(rest, k', ok) := try_targets blocked r k in ((t, ARefused) :: rest, k', ok)
       else if 0 <? k then
-        let '(rest, k', ok) := try_targets dead r (k - 1) in ((t, ATlsFail) :: rest, k', ok)
+        let '(rest, k', ok) := try_targets blocked r (k - 1) in ((t, ATlsFail) :: rest, k', ok)
       else ([(t, AOk)], k, true)
   end.
 
@@ -47,7 +48,7 @@ Record rt_result := {
 }.
 
 (* [resolved] = what ResolveServer gives for the server name of the request *)
-Definition round_trip (well_known_srv : bool) (dead : list bytes) (name : bytes)
+Definition round_trip (well_known_srv : bool) (blocked : target -> bool) (name : bytes)
            (resolved : outcome) (cache : option (list target)) (k : N) : option rt_result :=
   let direct := [ {| t_dest := name; t_host := name; t_sni := name |} ] in
   let from_cache := match cache with Some (x :: l) => Some (x :: l) | _ => None end in
@@ -65,11 +66,44 @@ Definition round_trip (well_known_srv : bool) (dead : list bytes) (name : bytes)
   | None => None                                   (* error before any attempt *)
   | Some (results, did_resolve) =>
       let cache1 := if well_known_srv then Some results else cache in
-      let '(a1, k1, ok1) := try_targets dead results k in
+      let '(a1, k1, ok1) := try_targets blocked results k in
       if ok1 then
         Some {| rt_attempts := a1; rt_ok := true; rt_resolved := did_resolve; rt_cache := cache1; rt_k := k1 |}
       else
-        let '(a2, k2, ok2) := try_targets dead (second_pass well_known_srv results) k1 in
+        let '(a2, k2, ok2) := try_targets blocked (second_pass well_known_srv results) k1 in
         Some {| rt_attempts := a1 ++ a2; rt_ok := ok2; rt_resolved := did_resolve;
                 rt_cache := None; rt_k := k2 |}
   end.
+
+(* ---------- the connections behind the attempts ----------
+   Every dial of the transport - the federation attempts and, since the repair of F71, the
+   .well-known request of the resolution - goes through one dialer: the host part of the
+   destination is turned into an address (IP literal: itself; name: what the resolver says) and
+   the control function decides on address:port. *)
+Definition dest_addr (ip_of : bytes -> bytes) (dest : bytes) : bytes :=
+  match split_host dest with
+  | Some h => join_host_port (match parse_ip h with Some _ => h | None => ip_of h end) (port_of dest)
+  | None => dest
+  end.
+
+Definition net_of (addr : bytes) : bytes :=
+  match addr with c :: _ => if c =? 91 then bs "tcp6" else bs "tcp4" | [] => bs "tcp4" end.
+
+Definition dial_allowed (allow deny : list bytes) (addr : bytes) : bool :=
+  control_allows allow deny (net_of addr) addr.
+
+Definition blocked_by (dead allow deny : list bytes) (ip_of : bytes -> bytes) (t : target) : bool :=
+  mem_bytes (port_of (t_dest t)) dead || negb (dial_allowed allow deny (dest_addr ip_of (t_dest t))).
+
+Definition attempt_connections (ip_of : bytes -> bytes) (l : list (target * attempt_outcome)) : list bytes :=
+  flat_map (fun a => match snd a with
+                     | ARefused => []
+                     | _ => [dest_addr ip_of (t_dest (fst a))]
+                     end) l.
+
+(* the .well-known request: https://name/... is port 443 of the name *)
+Definition well_known_dest (name : bytes) : bytes := name ++ bs ":443".
+Definition well_known_connection (allow deny : list bytes) (ip_of : bytes -> bytes) (name : bytes)
+  : option bytes :=
+  let a := dest_addr ip_of (well_known_dest name) in
+  if dial_allowed allow deny a then Some a else None.
